@@ -925,13 +925,19 @@ func (m *Nitro) StoreToDisk(dir string, snap *Snapshot, concurr int, itmCallback
 	writers := make([]FileWriter, shards)
 	files := make([]string, shards)
 	checksums := make([]uint32, shards)
-	defer func() {
-		for _, w := range writers {
+	// Flushes and closes the writers. Reports the first failure.
+	closeWriters := func(ws []FileWriter) (cerr error) {
+		for i, w := range ws {
 			if w != nil {
-				w.Close()
+				if e := w.Close(); e != nil && cerr == nil {
+					cerr = e
+				}
+				ws[i] = nil
 			}
 		}
-	}()
+		return
+	}
+	defer closeWriters(writers)
 
 	for shard := 0; shard < shards; shard++ {
 		w := m.newFileWriter(m.fileType)
@@ -950,13 +956,7 @@ func (m *Nitro) StoreToDisk(dir string, snap *Snapshot, concurr int, itmCallback
 		deltaWriters := make([]FileWriter, m.numWriters())
 		deltaFiles := make([]string, m.numWriters())
 		deltaChecksums := make([]uint32, m.numWriters())
-		defer func() {
-			for _, w := range deltaWriters {
-				if w != nil {
-					w.Close()
-				}
-			}
-		}()
+		defer closeWriters(deltaWriters)
 
 		deltadir := filepath.Join(dir, "delta")
 		os.MkdirAll(deltadir, 0755)
@@ -988,12 +988,16 @@ func (m *Nitro) StoreToDisk(dir string, snap *Snapshot, concurr int, itmCallback
 		defer func() {
 			derr := m.changeDeltaWrState(dwStateTerminate, nil, nil)
 			if derr == nil {
+				for id, dwr := range deltaWriters {
+					deltaChecksums[id] = dwr.Checksum()
+				}
+				// The manifests may only vouch for files that are complete on disk
+				derr = closeWriters(deltaWriters)
+			}
+			if derr == nil {
 				bs, _ := json.Marshal(deltaFiles)
 				derr = ioutil.WriteFile(filepath.Join(deltadir, "files.json"), bs, 0660)
 				if derr == nil {
-					for id, dwr := range deltaWriters {
-						deltaChecksums[id] = dwr.Checksum()
-					}
 					bs, _ = json.Marshal(deltaChecksums)
 					derr = ioutil.WriteFile(filepath.Join(deltadir, "checksums.json"), bs, 0660)
 				}
@@ -1025,14 +1029,17 @@ func (m *Nitro) StoreToDisk(dir string, snap *Snapshot, concurr int, itmCallback
 	manifest, _ := json.Marshal(map[string]interface{}{"version": version})
 	if err = ioutil.WriteFile(filepath.Join(manifestdir, "nitro.json"), manifest, 0660); err == nil {
 		if err = m.Visitor(snap, visitorCallback, shards, concurr); err == nil {
-			bs, _ := json.Marshal(files)
-			err = ioutil.WriteFile(filepath.Join(datadir, "files.json"), bs, 0660)
-			if err == nil {
-				for id, wr := range writers {
-					checksums[id] = wr.Checksum()
+			for id, wr := range writers {
+				checksums[id] = wr.Checksum()
+			}
+			// The manifests may only vouch for files that are complete on disk
+			if err = closeWriters(writers); err == nil {
+				bs, _ := json.Marshal(files)
+				err = ioutil.WriteFile(filepath.Join(datadir, "files.json"), bs, 0660)
+				if err == nil {
+					bs, _ = json.Marshal(checksums)
+					err = ioutil.WriteFile(filepath.Join(datadir, "checksums.json"), bs, 0660)
 				}
-				bs, _ = json.Marshal(checksums)
-				err = ioutil.WriteFile(filepath.Join(datadir, "checksums.json"), bs, 0660)
 			}
 		}
 	}
